@@ -241,6 +241,12 @@ def _run_chunk(cmd, lines, timeout, cwd=None, env=None):
     except subprocess.TimeoutExpired:
         if len(lines) == 1:
             return ["timeout"]
+        if len(lines) <= 6:
+            # a small chunk: run its lines one by one (bisecting would pay the time limit once per level)
+            res = []
+            for l in lines:
+                res.extend(_run_chunk(cmd, [l], timeout, cwd, env))
+            return res
         mid = len(lines) // 2
         return _run_chunk(cmd, lines[:mid], timeout, cwd, env) + _run_chunk(cmd, lines[mid:], timeout, cwd, env)
 
